@@ -86,6 +86,13 @@ def main():
         shutil.rmtree(tmp, ignore_errors=True)
         shutil.rmtree(os.path.join(core.WORK, "SELFTEST", "apa_ok"), ignore_errors=True)
     print("Apalache self-test: induction step proved; broken leap rule refuted")
+    # Apa_Sexa: the print law holds for every value; the planted falsehood "a carry never reaches the degrees" is refuted
+    neg = core.run_apalache(core.Apa("Apa_Sexa", "AnyValue", "NoDegreeCarry", 0), os.path.join(core.WORK, "SELFTEST", "apa_sexa_neg"))
+    shutil.rmtree(os.path.join(core.WORK, "SELFTEST", "apa_sexa_neg"), ignore_errors=True)
+    if neg.ok or "The outcome is: Error" not in (neg.out or ""):
+        print("Apalache negative self-test FAILED (Apa_Sexa.NoDegreeCarry was not refuted): " + str(neg.error)[-400:])
+        return 2
+    print("Apalache self-test: Apa_Sexa refutes the planted 'no carry into the degrees'")
     return 0
 
 
